@@ -659,7 +659,7 @@ package tacquito
 //@   loop 1 invariant[C17] ghost.lclosed == old(ghost.lclosed) && ghost.waited == old(ghost.waited)
 
 //@ func (r Request) Fields(keys ...ContextKey) (m map[string]string)
-//@   modifies *
+//@   unverified logging helper: tries every decoder and merges maps; only its panic-freedom matters (C14)
 
 //@ func SetAuthorReplyArgs$1(a *AuthorReply)
 //@   requires a != nil
